@@ -112,9 +112,19 @@ class ModelSide:
             cands = []
             for p in range(self.ndpos):
                 d = self.bypos.get(p)
-                cs = [zero]
+                cs = []
+                # the block the content file records there NOW comes first: with tiny blocks (a 1-byte block has 256 values)
+                # several candidate vectors can explain one parity block; the current one is preferred, then zero, then the past
+                cur = self.stripes.get(pos, {}).get(p)
+                if cur is not None and cur[2] is not None:
+                    v = a.find_version(cur[1], cur[2])
+                    if v is not None:
+                        b = v[cur[3] * a.bs:(cur[3] + 1) * a.bs]
+                        cs.append(b + bytes(a.bs - len(b)))
+                if zero not in cs:
+                    cs.append(zero)
                 if d is not None and self.cand_hist is not None:
-                    cs += sorted(b for b in self.cand_hist.get((d, pos), ()) if b != zero)
+                    cs += sorted(b for b in self.cand_hist.get((d, pos), ()) if b not in cs)
                 cands.append(cs)
             todo = [l for l in range(a.np) if len(got[l]) == a.bs]
             found = {}
@@ -130,13 +140,13 @@ class ModelSide:
                     for l in todo:
                         acc = zero
                         for i, k in enumerate(combo):
-                            if k or cands[i][k] != zero:
+                            if cands[i][k] != zero:
                                 acc = xor_blocks(acc, mul[l][i][k])
                         if acc == got[l]:
                             ls.append(l)
                     if ls:
                         expl.append((len(ls), combo, ls))
-                expl.sort(key=lambda x: -x[0])
+                expl.sort(key=lambda x: (-x[0], x[1]))
                 for n, combo, ls in expl:
                     for l in ls:
                         if l not in found:
